@@ -21,7 +21,7 @@ import asyncio
 from . import events as E
 from .base import Exact, is_sym
 
-CLASSES = {c.__name__: c for c in (E.P, E.C, E.G, E.L, E.X, E.R, E.U)}
+CLASSES = {c.__name__: c for c in (E.P, E.C, E.G, E.L, E.X, E.R, E.U, E.TI, E.TS)}
 
 
 def env_EventBus():
@@ -64,6 +64,8 @@ def build(ctx):
         if b in hist:
             kw['max_history_size'] = hist[b]
         # a plain bubus.EventBus next to the recording subclass (dispatches to it are recorded by the callers' wrappers)
+        if b in (cfg.get('bus_names') or {}):
+            kw['name_'] = cfg['bus_names'][b]
         if b in wal:
             kw['wal_path'] = os.path.join(tempfile.gettempdir(), 'vfw_wal', f'{b}.jsonl')
         ctx.bus(b, cls=env_EventBus() if b in plain else None, **kw)
@@ -218,6 +220,12 @@ async def _run_script(ctx, inv, ev, script):
             _, bus, cls, label = st[:4]
             lab = _label(ctx, inv, label)
             e = inv.dispatch(ctx.buses[bus], _mk_event(ctx, cls, lab))
+            await inv.wait(e)
+        elif op == 'dispawait_shared':
+            # several handlers dispatch (and await) the very same event object
+            _, bus, cls, label = st
+            e = ctx.events.get(label) or _mk_event(ctx, cls, label)
+            inv.dispatch(ctx.buses[bus], e)
             await inv.wait(e)
         elif op == 'redispatch':
             _, bus, label = st
